@@ -54,3 +54,81 @@ Theorem C05_self_derived :
       gen_of (snd (at_step cf reqs s d k1)) u = Some g /\ gen_of (snd (at_step cf reqs s d k2)) u = Some g.
 Proof. exact c05_self_derived. Qed.
 Print Assumptions C05_self_derived.
+
+(* ---------------------------------------------------------------------------------------------------------------
+   Over Model/ConcAll.v: EVERY request kind as a thread (provider create / update / delete, class and trait CRUD, PUT traits and
+   PUT aggregates with their current write transactions, the allocation writes with the request's class cache), one step per
+   top-level transaction, any number of threads, any schedule (Proofs/C05a.v, on the accounting of Proofs/C10c.v).
+   a_held t u = the generation the thread holds for provider u while its answer is open: the one the request carries (PUT
+   inventories, PUT inventory, PUT traits, PUT aggregates from 1.19; POST /reshaper: the generation named for u in its
+   inventories section), or - for the requests deriving it themselves - the one their read transaction found (from then on). *)
+From PV Require Import Model.ConcAll Proofs.C10c Proofs.C05a.
+
+(* (a) a thread holding generation g for u fixes a success only in a transaction that found u at generation g; that
+   transaction moves u's generation within the bounds of the request's kind (C10_bounds_by_kind: exactly g -> g + 1 for PUT
+   inventories, PUT / POST / DELETE inventory, DELETE inventories, PUT aggregates from 1.19; g -> g or g + 1 for PUT / DELETE
+   traits - g when nothing changes) *)
+Theorem C05_commit_generation_all_kinds : forall cf t d u g r,
+  a_resp t = None -> a_held t u = Some g ->
+  a_resp (fst (astep cf t d)) = Some r -> status r < 300 ->
+  gen_of d u = Some g /\ in_bounds (a_bounds t u) (gdelta d (snd (astep cf t d)) u).
+Proof. exact c05a_commit_generation. Qed.
+Print Assumptions C05_commit_generation_all_kinds.
+
+(* ... and it keeps holding g until then *)
+Theorem C05_holds_until_commit : forall cf t d u g, a_resp t = None -> a_held t u = Some g ->
+  a_resp (fst (astep cf t d)) = None -> a_held (fst (astep cf t d)) u = Some g.
+Proof. intros cf t d u g H1 H2. exact (proj1 (a_held_step cf t d u g H1 H2)). Qed.
+Print Assumptions C05_holds_until_commit.
+
+(* which generation a request holds from the start *)
+Theorem C05_held_by_kind : forall cf u,
+  (forall v u0 g l, a_held (ainit cf (InvSet v u0 g l)) u = if u0 =? u then Some g else None) /\
+  (forall v u0 g x, a_held (ainit cf (InvPut v u0 g x)) u = if u0 =? u then Some g else None) /\
+  (forall v u0 g ts, 6 <= v -> a_held (ainit cf (TraitsSet v u0 g ts)) u = if u0 =? u then Some g else None) /\
+  (forall v u0 g l, 19 <= v -> a_held (ainit cf (AggsSet v u0 g l)) u = if u0 =? u then Some g else None) /\
+  (forall v u0 g l, 1 <= v < 19 -> a_held (ainit cf (AggsSet v u0 g l)) u = None) /\
+  (forall v ri al, 30 <= v -> a_held (ainit cf (Reshape v ri al)) u = reshape_held ri u) /\
+  (forall v u0 x, a_held (ainit cf (InvPost v u0 x)) u = None) /\
+  (forall u0 rc, a_held (ainit cf (InvDelete u0 rc)) u = None) /\
+  (forall v u0, a_held (ainit cf (InvDeleteAll v u0)) u = None) /\
+  (forall v u0, a_held (ainit cf (TraitsDelete v u0)) u = None) /\
+  (forall v c, a_held (ainit cf (AllocPut v c)) u = None) /\
+  (forall v l, a_held (ainit cf (AllocPost v l)) u = None).
+Proof. exact held_table. Qed.
+Print Assumptions C05_held_by_kind.
+
+(* requests deriving the generation themselves hold, from their read transaction on, the generation stored then *)
+Theorem C05_self_derived_all_kinds : forall cf r d u, guards r u = true -> carried r = None ->
+  a_resp (fst (astep cf (ATree (TTOther (TProvRead r))) d)) = None ->
+  a_held (fst (astep cf (ATree (TTOther (TProvRead r))) d)) u = gen_of d u /\ gen_of d u <> None.
+Proof. exact c05a_self_derived_read. Qed.
+Print Assumptions C05_self_derived_all_kinds.
+
+(* (b) any start state in which u exists, any requests none of which is the DELETE of u, any schedule: of the requests holding
+   generation g for u from the start, AT MOST ONE increments u's generation (tl = per-request increments, Props/C10.v).  The
+   others are rejected, or accepted WITHOUT an increment - a PUT traits that changes nothing, which has still compared the
+   generation (C05_same_traits_twice: both of two identical such requests are accepted). *)
+Theorem C05_at_most_one_all_kinds : forall cf reqs s d u g,
+  gen_of d u <> None -> (forall r, In r reqs -> r <> RpDelete u) ->
+  let fs := map (holds0 cf u g) reqs in
+  let '(_, _, tl) := a_run_tally cf u s (map (ainit cf) reqs) d (map (fun _ => 0) reqs) in
+  cnt fs tl <= 1 /\
+  forall i j, i <> j -> nth i fs false = true -> nth j fs false = true -> 0 < nth i tl 0 -> 0 < nth j tl 0 -> False.
+Proof. exact c05a_at_most_one. Qed.
+Print Assumptions C05_at_most_one_all_kinds.
+
+Theorem C05_same_traits_twice :
+  let reqs := [TraitsSet 39 1 4 [100002]; TraitsSet 39 1 4 [100002]] in
+  let '(ts, d', tl) := a_run_tally cx_cf 1 [0; 1; 0; 1; 0; 1]%nat (map (ainit cx_cf) reqs) cx_d0 [0; 0] in
+  (map (holds0 cx_cf 1 4) reqs, map cx_status ts, cx_gen cx_d0 1, cx_gen d' 1, tl) = ([true; true], [200; 200], 4, 4, [0; 0]).
+Proof. exact c05a_same_traits_twice. Qed.
+Print Assumptions C05_same_traits_twice.
+
+Theorem C05_traits_vs_inventories :
+  let reqs := [TraitsSet 39 1 4 [100001]; InvSet 39 1 4 [mkInvIn 0 8 0 1 2147483647 1 1 0; mkInvIn 2 200 0 1 2147483647 1 1 0]] in
+  let '(ts, d', tl) := a_run_tally cx_cf 1 [0; 1; 0; 1; 0]%nat (map (ainit cx_cf) reqs) cx_d0 [0; 0] in
+  (map (holds0 cx_cf 1 4) reqs, map cx_status ts, cx_gen cx_d0 1, cx_gen d' 1, tl) = ([true; true], [409; 200], 4, 5, [0; 1]).
+Proof. exact c05a_traits_vs_inventories. Qed.
+Print Assumptions C05_traits_vs_inventories.
+
